@@ -92,7 +92,7 @@ def mk_in(prefix, mps, ep, role):
 
 def targets(tier):
     if tier == "quick":
-        ts = [mk_in("tin", 2, 1, "r"), mk_in("cin", 8, 3, "corr"), mk_in("cin", 64, 15, "corr"),
+        ts = [mk_in("tin", 2, 1, "r"), mk_in("cin", 64, 15, "corr"),
               mk_out(1, 1, 1, "r"), mk_out(64, 127, 2, "corr"), mk_std()]
         ts[0].rcfg = (False, [165], "[false]")
     else:
@@ -102,7 +102,7 @@ def targets(tier):
               mk_out(64, 127, 2, "corr"), mk_out(512, 1023, 5, "corr"), mk_std()]
         ts[0].rcfg = (True, [165], "[false; true]")
         ts[1].rcfg = (False, [165], "[false]")
-        ts[5].alevel = "full"; ts[6].alevel = "full"
+        ts[5].alevel = "full"
     return ts
 
 
@@ -112,7 +112,7 @@ def out_traces(target, rng, tier):
     """OUT / PING transactions to this and other endpoints: data PIDs matching or repeating the toggle, good and
     corrupt packets, slow consumers (NAK on full), ClearFeature(ENDPOINT_HALT) strobes between transactions."""
     mps, ep = target.params["mps"], target.params["ep"]
-    n = 12 if tier == "quick" else 50
+    n = 12 if tier == "quick" else 30
     out = []
     for k in range(n):
         tr = []
@@ -196,7 +196,7 @@ def traces(target, rng, tier):
     if target.kind == "std":
         return std_traces(target, rng, tier)
     mps = target.params["mps"]
-    n = (10 if mps <= 16 else 6) if tier == "quick" else 40
+    n = (10 if mps <= 16 else 6) if tier == "quick" else (24 if mps <= 16 else 12)
     base = 160 + 14 * min(mps, 64)
     out = []
     for k in range(n):
@@ -257,14 +257,14 @@ def obligations(targets, tier):
             desc = f"USBStreamInEndpoint(endpoint_number={ep}, max_packet_size={mps})"
             if t.role == "r":
                 full, vals, irrs = t.rcfg
-                clrs = [0, IN.clr_word(1, 1, ep), IN.clr_word(1, 0, ep)] + ([IN.clr_word(1, 1, ep ^ 1)] if tier != "quick" else [])
+                clrs = [0, IN.clr_word(1, 1, ep), IN.clr_word(1, 0, ep)] + ([IN.clr_word(1, 1, ep ^ 1)] if full else [])
                 obs.append(IN.rlock_fast(
                     f"ob_{t.name}", t, mps=mps, ep=ep, toks=IN.coq_toks(ep, full), vals="[" + "; ".join(map(str, vals)) + "]",
                     clrs="[" + "; ".join(map(str, clrs)) + "]", irrs=irrs, gnorm="noplN",
                     mstep=f"ix_mstep_t {mps}%nat {ep}", wf_step=f"ix_wf_step_t {mps}%nat {ep}",
                     describe=desc + " == model in lock step (all outputs but tx.payload) on all traces over the state-dependent "
                              f"alphabet incl. clear_endpoint_halt_in words {clrs} (none / this IN endpoint / same number, OUT direction"
-                             + ("" if tier == "quick" else " / other number") + ")"))
+                             + (" / other number" if full else "") + ")"))
             obs.append(tie.cmon(f"spec_{t.name}", t, mon=f"(c14i_monN {ep})", m0="(tg_enc tg_init)",
                                 describe=desc + ": the IN toggle rule (advance on ACK of the outstanding packet, DATA0 after a matching "
                                                 "clear-halt, unchanged otherwise; every transmission carries it) over simulator traces"))
@@ -308,7 +308,49 @@ def tie_theorem_names(targets, tier):
     return [f"C14_{t.name}" for t in targets if t.kind == "in" and t.role == "r"]
 
 
-ASSUMPTIONS = []
-LEVEL_TEXT = "in progress"
-LEVEL_NOTE = ""
-TECHNIQUE = ""
+ASSUMPTIONS = [
+    "DEFECT in the unchanged tree (confirmed on the simulator; findings/C14-in-reset-lost-on-packet-ready.json/.diff): in "
+    "USBInTransferManager a reset_sequence strobe (ClearFeature(ENDPOINT_HALT) for this IN endpoint) that arrives in the cycle in which "
+    "WAIT_FOR_DATA queues a packet is overridden by the swap's `data_pid[0].eq(~data_pid[0])`; the first packet after the clear-halt then "
+    "carries DATA1 (or whatever follows the old toggle) instead of DATA0.  Model and ties use the repaired behaviour; ./check C14 passes "
+    "only with findings/C14-in-reset-lost-on-packet-ready.diff applied (independent of the C11 repair: tx.payload is not compared here)",
+    "IN endpoints, environment: ACK and new_token strobes never coincide; the clear_endpoint_halt strobe naming this endpoint arrives "
+    "only while none of its packets is on the wire or awaiting its handshake (it is produced at the ACK of the control transfer's "
+    "status stage, which a token for endpoint 0 precedes).  Outside this assumption the module can lose the reset "
+    "(SEND_PACKET / WAIT_FOR_ACK set data_pid to 1, an ACK in the same cycle overrides it)",
+    "IN success event = host ACK while a completed packet's handshake is outstanding; `discard` tied to 0 (discard un-does the "
+    "anticipatory toggle; not part of the property)",
+    "OUT endpoints: the expected_data_toggle Signal is local to elaborate(); the harness elaborates the module itself, finds the Signal "
+    "by name and exports it as an output port (no change to /repo).  Environment: a token is OUT or PING, not both.  Proved per tie "
+    "configuration (max_packet_size, buffer_size) in {(1,1)} (thorough: (1,1), (1,2), (2,3)) on the cone of influence of (ack, nak, "
+    "toggle), over an explicit input alphabet; realistic sizes by the same monitor on simulator traces.  No parametric model of the "
+    "OUT endpoint is proved here",
+    "decode (StandardRequestHandler): environment = the control requests are standard CLEAR_FEATURE(ENDPOINT_HALT) requests to an "
+    "endpoint (the property's quantifier).  Robustness remarks outside it (not checked here, cf. C07/C08): the strobe fires on ANY "
+    "handshakes_in.ack while the CLEAR_FEATURE state is active (also an ACK meant for another endpoint before the status stage) and is "
+    "not gated by the feature selector / recipient",
+]
+LEVEL_TEXT = ("Machine-checked proof, parametric for IN endpoints, per configuration for OUT endpoints and the decode. (1) IN: for every "
+              "max_packet_size, endpoint number and input history the USBStreamInEndpoint model obeys the toggle rule seq_next -- DATA0 after "
+              "a clear-halt strobe naming this IN endpoint (enable & direction & number = endpoint_number), flipped by a host ACK while a "
+              "completed packet's handshake is outstanding, unchanged otherwise -- and every transmission carries that toggle on "
+              "tx_pid_toggle (C14_in_toggle_rule_holds; simulation relation toggle = data_pid in WAIT_TO_SEND/SEND/WAIT_FOR_ACK, its "
+              "complement in WAIT_FOR_DATA).  For max_packet_size 2 (thorough: 2, 3) the netlist regenerated from /repo equals the model "
+              "on all outputs but tx.payload for all traces over a state-dependent alphabet that includes clear-halt words for this "
+              "endpoint, the other direction (thorough: another number), giving C14_<cfg>: netlist satisfies the rule.  (2) OUT: for "
+              "USBStreamOutEndpoint at (max_packet_size, buffer) = (1,1) (thorough: (1,2), (2,3)) the expected_data_toggle register is "
+              "proved, for all traces over an explicit input alphabet, to be cleared exactly by a strobe naming this OUT endpoint, flipped "
+              "exactly when the device ACKs a data packet carrying the expected PID, unchanged otherwise; a repeated PID is ACKed "
+              "(certified reachability of netlist x monitor).  (3) decode: the clear_endpoint_halt strobe of StandardRequestHandler is "
+              "(1, wIndex[7], wIndex[3:0]) exactly at the host ACK while a CLEAR_FEATURE request is handled and 0 otherwise, for all traces "
+              "over all control-strobe combinations x 5-7 wIndex values.  (4) Checked, not proved: the same three monitors on simulator "
+              "traces at realistic sizes (IN 64/512, OUT 64/127..512/1023).  On the UNCHANGED tree the check reports a violation of the IN "
+              "rule (see ASSUMPTIONS); it passes with findings/C14-in-reset-lost-on-packet-ready.diff.")
+LEVEL_NOTE = ("Trusted: Coq kernel + vm_compute, Amaranth elaboration, nir2coq.py/Netlist.v and harness/slice.py (validated each run against "
+              "pysim), the harness-side export of expected_data_toggle.  The OUT rule and the decode have no parametric Coq model: their "
+              "theorems are per tie configuration (any trace length, restricted data values); other sizes rest on the runtime monitors.  "
+              "The composition 'decode strobe -> endpoint multiplexer -> endpoints' (pure wiring in USBEndpointMultiplexer / "
+              "USBControlEndpoint) is not covered.")
+TECHNIQUE = ("Rocq proof: simulation relation between the IN endpoint model and a three-bit toggle observer (parametric) + certified "
+             "product-reachability of regenerated netlists against the model (IN) and directly against observer specifications "
+             "(OUT register exported by the harness, request-handler decode on its cone of influence) + runtime monitors on simulator traces")
